@@ -283,7 +283,7 @@ def run(ctx: fw.Ctx) -> int:
         ctx.correspondence_break('model build', logtxt[-1500:])
 
     depth = ctx.scale(5, 6)
-    nrandom = ctx.scale(3000, 30000)
+    nrandom = ctx.scale(1500, 30000)
     jobs: list[tuple] = []
     jobs.append(('list', [(cfgd_of(l, ix, 2), expand_all(ms)) for l, ix, ms in CORPUS]))
     for limit, indexed in [(None, False), (1, False), (2, False), (1, True)] + ([(None, True), (2, True)] if ctx.thorough else []):
